@@ -423,6 +423,15 @@ func calleeName(cc *ssa.CallCommon) string {
 		return v.Name()
 	case *ssa.MakeClosure:
 		return v.Fn.(*ssa.Function).String()
+	case *ssa.UnOp:
+		// call of a function stored in a struct field: named by the field
+		if fa, ok := v.X.(*ssa.FieldAddr); ok {
+			if pt, ok := fa.X.Type().Underlying().(*types.Pointer); ok {
+				if st, ok := pt.Elem().Underlying().(*types.Struct); ok {
+					return "field." + st.Field(fa.Field).Name()
+				}
+			}
+		}
 	}
 	return ""
 }
